@@ -26,6 +26,28 @@ check(
     "DESIGN.md §3 C18",
 )
 
+check(
+    "C01",
+    "reference-monitor",
+    "exploration",
+    "runtime monitoring: independent reference encoder + metamorphic histories (orders of keywords, sealing, identifier requests), cross-process / PYTHONHASHSEED comparison, pinned corpus",
+    "Every node of every generated graph (nested, shared, cyclic, task outputs, containers, pre/init tasks) is rebuilt under ~8 histories; after each, "
+    "raw and full identifier must equal an independent never-caching reference encoder; the same recipes are built in processes with different hash seeds; "
+    "320 pinned recipes carry the identifiers of the original snapshot.",
+    "Trusted: lib/xvref/sig.py and pinned/identifiers.json (generated from the snapshot commit and cross-checked with the reference) as stand-in for earlier releases; sha256.",
+    "DESIGN.md §3 C01",
+)
+check(
+    "C02",
+    "reference-monitor",
+    "exploration",
+    "runtime monitoring: metamorphic monitor (neutral recipe edits at random nodes, class edits through same-id subclasses) on the real identifier computation, with negative controls",
+    "For each generated graph a neutral edit (explicit default / None, Meta/Option/Path value, meta sub-configuration content, insertion, removal, tags, dependencies, "
+    "launcher/workspace/run mode, class extended by defaulted/Meta/optional/generated parameters), alone or in pairs, must leave every node's raw and full identifier unchanged.",
+    "Trusted: the list of neutral edits is the documented one; pre-tasks reachable through a meta-flagged node are treated as signature-relevant (the statement does not exclude them).",
+    "DESIGN.md §3 C02",
+)
+
 NOT_APPLICABLE = []
 
 
